@@ -246,6 +246,65 @@ CHECKS["C07"] = {
 NOT_YET = {}
 
 
+# ---- later rounds: texts that follow what is now proved (see DESIGN.md §10.3)
+CHECKS["C09"]["text"] = (
+    "Proof (Coq): re-creation of a record in a target scope keeps kind and identifier URI under any prefix/default clash "
+    "(uses the C03a URI invariant), appends and touches nothing else; update leaves the other document unchanged (frame); every "
+    "add_bundle refusal leaves the world unchanged and the documented refusals do raise. In every reachable world (no "
+    "hypothesis on managers or values: WInvUProofs/GoodProofs): the re-created record holds exactly the images of the values "
+    "handed over; flattened()'s records are, in order, the images of the document's and its bundles' records; d.update(other) "
+    "leaves d with its former records followed by the images of other's, d's bundles in place with only appended records, "
+    "every bundle of other as one block of images in the bundle of the same identifier (created when missing); "
+    "bundle.update(other) likewise; a successful add_bundle(document, id) appends one bundle under the requested identifier "
+    "URI holding the images of the document's records. 'Image' = same kind, identifier URI, attribute URIs and values with "
+    "names re-homed; exact equality of the value multiset (C09_full_statement) is decided per run by the correspondence and "
+    "the strict-multiset oracle on the implementation.")
+CHECKS["C09"]["technique"] = ("Coq proofs over add_record / update / add_bundle / flattened in every reachable world + "
+                              "differential correspondence and multiset oracle")
+CHECKS["C08"]["text"] = (
+    "Proof (Coq): unified() leaves every existing document unchanged (frame), returns a new document, and is the identity "
+    "when no two records share kind and identifier; grouping: one record per (kind, identifier) group and every anonymous "
+    "record, in first-occurrence order; attributes: a merged record holds exactly the images of its group's values (in every "
+    "reachable world); idempotence: the records unified() returns are a fixed point, and in the document it returns no "
+    "container has anything left to merge; raise only on conflict: in every reachable container, if unifying raises, the "
+    "exception is ProvException and two records of one group hold unequal values under one formal attribute. The converse "
+    "(every conflict raises) is false for memberships (known finding C08-F1) and is decided per run by the correspondence "
+    "(model vs implementation on identifier-reuse programs) and an independent merge-specification oracle on the "
+    "implementation, which also checks that the result shares no bundle object with the source and that writing to the "
+    "result leaves the source alone.")
+CHECKS["C08"]["technique"] = ("Coq proofs (frame, grouping, attribute conservation, idempotence, raise-only-on-conflict) + "
+                              "differential correspondence and independent merge oracle")
+CHECKS["C01"]["text"] = (
+    "Proof (Coq): value level — every stored value kind (str, bool, int of any size, float under the float-oracle law, URI, "
+    "qualified name bound in the container, language-tagged literal, every valid datetime via the proved ISO round trip) "
+    "survives encode_json_representation -> decode_json_representation -> normalisation on insertion unchanged; attribute "
+    "level — n values come back as exactly those n values, in order; record level — the object written for a record is read "
+    "back, in a container declaring its names, as a record of the same kind and identifier whose every attribute holds the "
+    "same values in the same order, nothing else in the container changing; the decoder only builds well-formed documents (for "
+    "all trees). The container level (prefix block, identifier-keyed maps, arrays for repeated identifiers, anonymous ids, "
+    "bundles) is modelled and executed, its theorem stated but not yet proved (partial). Tie: ExportJson/LoadJson in the "
+    "correspondence programs (implementation tree = model tree; loaded document = model decode); direct oracle: every "
+    "document x 5 json.dump option sets, strict-content round trip.")
+CHECKS["C01"]["technique"] = ("Coq proofs at value, attribute and record level + differential correspondence at JSON-tree "
+                              "level + strict round-trip oracle")
+CHECKS["C10"]["text"] = CHECKS["C10"]["text"].replace(
+    "force_types. The readers are Gallina definitions",
+    "force_types; (3) record level for PROV-JSON: JsonSpec.read_record of the object written for a record is the record's "
+    "kind URI, identifier URI and, per attribute in order, every (attribute URI, value content). The readers are Gallina "
+    "definitions")
+CHECKS["C14"]["text"] = CHECKS["C14"]["text"].replace(
+    "graph_to_prov builds a well-formed bundle-free document; endpoint inference",
+    "graph_to_prov builds a well-formed bundle-free document; for every document, document -> graph -> document yields the "
+    "images of the declared nodes' records and of exactly the relations on the graph's edges, all of them records of the "
+    "unified document; endpoint inference")
+CHECKS["C02"]["text"] = CHECKS["C02"]["text"].replace(
+    "Element-tree assembly (nsmap, child order, subtype element names, bundles) is not modelled (partial).",
+    "Record level, element names: for every record class and attribute list the writer takes out exactly one prov:type pair "
+    "naming a subtype of the class (or none) and the reader's treatment of the element name puts it back — no other pair is "
+    "touched (XmlLabel.v, tied to _derive_record_label and the reader by 5208 ordered lists + every element name per run). "
+    "The rest of element-tree assembly (nsmap, child order, bundles) is not modelled (partial).")
+
+
 def main():
     props = [json.loads(l) for l in open(os.path.join(VERIF, "properties.jsonl"))]
     checks = []
